@@ -169,12 +169,12 @@ SameMap(a, b) == DOMAIN a = DOMAIN b /\ \A k \in DOMAIN a : a[k] = b[k]
 
 -----------------------------------------------------------------------------
 VARIABLES bindings, required, numeric, rtype,          \* the shape (fixed once sealed)
-          draft, di,                                    \* request under construction by the caller
+          di,                                           \* next leaf the caller decides while building req
           req, phase, sel, path, hasBody, bodyL, queryL, dflt, msg, http, reply, result, outcome,
           calls, log
 shapeVars == <<bindings, required, numeric, rtype>>
 callVars == <<req, sel, path, hasBody, bodyL, queryL, dflt, msg, http, reply, result, outcome>>
-vars == <<bindings, required, numeric, rtype, draft, di, req, phase, sel, path, hasBody, bodyL, queryL, dflt, msg,
+vars == <<bindings, required, numeric, rtype, di, req, phase, sel, path, hasBody, bodyL, queryL, dflt, msg,
           http, reply, result, outcome, calls, log>>
 
 Unset == [l \in Leaves |-> <<>>]
@@ -199,7 +199,7 @@ AltValue == <<"json;enum-encoding=int">>
 SystemParams == {AltParam}
 
 Init == /\ bindings = <<>> /\ required = {} /\ numeric = FALSE /\ rtype = "A"
-        /\ draft = Unset /\ di = 1 /\ req = Unset /\ phase = "shaping" /\ sel = 0 /\ path = <<>>
+        /\ di = 1 /\ req = Unset /\ phase = "shaping" /\ sel = 0 /\ path = <<>>
         /\ hasBody = FALSE /\ bodyL = EmptyMap /\ queryL = EmptyMap /\ dflt = {} /\ msg = NoMsg /\ http = <<>>
         /\ reply = NoReply /\ result = NoResult /\ outcome = "" /\ calls = 0 /\ log = <<>>
 
@@ -209,20 +209,21 @@ AddBinding(v, p, b) ==
   /\ IF Len(bindings) = 0 THEN v \in Verbs
      ELSE IF Rotate THEN v = VerbNext[bindings[Len(bindings)].verb] ELSE v \in Verbs
   /\ bindings' = Append(bindings, [verb |-> v, pid |-> p, body |-> b])
-  /\ UNCHANGED <<required, numeric, rtype, draft, di, phase, calls, log>> /\ UNCHANGED callVars
+  /\ UNCHANGED <<required, numeric, rtype, di, phase, calls, log>> /\ UNCHANGED callVars
 Seal(R, n, t) ==
   /\ phase = "shaping"
   /\ required' = R /\ numeric' = n /\ rtype' = t /\ phase' = "idle"
-  /\ UNCHANGED <<bindings, draft, di, calls, log>> /\ UNCHANGED callVars
+  /\ UNCHANGED <<bindings, di, calls, log>> /\ UNCHANGED callVars
 
 \* ---- the caller ----
 BuildLeaf == /\ phase = "idle" /\ di <= Len(LeafOrder)
-             /\ \E v \in SetVals(LeafOrder[di]) \cup {<<>>} : draft' = [draft EXCEPT ![LeafOrder[di]] = v]
+             /\ \E v \in SetVals(LeafOrder[di]) \cup {<<>>} : req' = [req EXCEPT ![LeafOrder[di]] = v]
              /\ di' = di + 1
-             /\ UNCHANGED <<phase, calls, log>> /\ UNCHANGED shapeVars /\ UNCHANGED callVars
+             /\ UNCHANGED <<phase, sel, path, hasBody, bodyL, queryL, dflt, msg, http, reply, result, outcome, calls, log>>
+             /\ UNCHANGED shapeVars
 Invoke(v) == /\ phase = "idle"
              /\ req' = v /\ phase' = "called"
-             /\ UNCHANGED <<draft, di, sel, path, hasBody, bodyL, queryL, dflt, msg, http, reply, result, outcome, calls, log>>
+             /\ UNCHANGED <<di, sel, path, hasBody, bodyL, queryL, dflt, msg, http, reply, result, outcome, calls, log>>
              /\ UNCHANGED shapeVars
 
 \* ---- the transport ----
@@ -230,22 +231,22 @@ RefuseNoBinding ==
   /\ phase = "called" /\ Len(bindings) = 0
   /\ outcome' = "NotImplementedError" /\ phase' = "refused"
   /\ http' = IF Mutant = "send_when_refused" THEN <<NoMsg>> ELSE http
-  /\ UNCHANGED <<draft, di, req, sel, path, hasBody, bodyL, queryL, dflt, msg, reply, result, calls, log>> /\ UNCHANGED shapeVars
+  /\ UNCHANGED <<di, req, sel, path, hasBody, bodyL, queryL, dflt, msg, reply, result, calls, log>> /\ UNCHANGED shapeVars
 EligibleSet == {i \in 1..Len(bindings) : Eligible(i)}
 Pick(S) == IF Mutant = "last_eligible" THEN CHOOSE i \in S : \A j \in S : j <= i
            ELSE CHOOSE i \in S : \A j \in S : i <= j
 SelectBinding ==
   /\ phase = "called" /\ Len(bindings) > 0 /\ EligibleSet # {}
   /\ sel' = Pick(EligibleSet) /\ phase' = "selected"
-  /\ UNCHANGED <<draft, di, req, path, hasBody, bodyL, queryL, dflt, msg, http, reply, result, outcome, calls, log>> /\ UNCHANGED shapeVars
+  /\ UNCHANGED <<di, req, path, hasBody, bodyL, queryL, dflt, msg, http, reply, result, outcome, calls, log>> /\ UNCHANGED shapeVars
 RejectNoMatch ==
   /\ phase = "called" /\ Len(bindings) > 0 /\ EligibleSet = {}
   /\ outcome' = "error" /\ phase' = "rejected"
-  /\ UNCHANGED <<draft, di, req, sel, path, hasBody, bodyL, queryL, dflt, msg, http, reply, result, calls, log>> /\ UNCHANGED shapeVars
+  /\ UNCHANGED <<di, req, sel, path, hasBody, bodyL, queryL, dflt, msg, http, reply, result, calls, log>> /\ UNCHANGED shapeVars
 ExpandPath ==
   /\ phase = "selected"
   /\ path' = ExpandFrom(BToks(sel), req, 1) /\ phase' = "expanded"
-  /\ UNCHANGED <<draft, di, req, sel, hasBody, bodyL, queryL, dflt, msg, http, reply, result, outcome, calls, log>> /\ UNCHANGED shapeVars
+  /\ UNCHANGED <<di, req, sel, hasBody, bodyL, queryL, dflt, msg, http, reply, result, outcome, calls, log>> /\ UNCHANGED shapeVars
 SetLeaves == {l \in Leaves : req[l] # <<>>}
 BodySpecFor(i) == IF Mutant = "body_from_primary" THEN bindings[1].body ELSE bindings[i].body
 SplitBody ==
@@ -254,7 +255,7 @@ SplitBody ==
   /\ bodyL' = IF BodySpecFor(sel) = "" THEN EmptyMap
               ELSE Restrict(req, {l \in SetLeaves : Loc(sel, l) = "body"})
   /\ phase' = "split"
-  /\ UNCHANGED <<draft, di, req, sel, path, queryL, dflt, msg, http, reply, result, outcome, calls, log>> /\ UNCHANGED shapeVars
+  /\ UNCHANGED <<di, req, sel, path, queryL, dflt, msg, http, reply, result, outcome, calls, log>> /\ UNCHANGED shapeVars
 RemainderToQuery ==
   /\ phase = "split"
   /\ queryL' = Restrict(req, {l \in SetLeaves :
@@ -262,14 +263,14 @@ RemainderToQuery ==
                     \/ Mutant = "path_var_kept_in_query" /\ Loc(sel, l) = "path"
                     \/ Mutant = "body_field_also_in_query" /\ Loc(sel, l) = "body" /\ bindings[sel].body # "*"})
   /\ phase' = "placed"
-  /\ UNCHANGED <<draft, di, req, sel, path, hasBody, bodyL, dflt, msg, http, reply, result, outcome, calls, log>> /\ UNCHANGED shapeVars
+  /\ UNCHANGED <<di, req, sel, path, hasBody, bodyL, dflt, msg, http, reply, result, outcome, calls, log>> /\ UNCHANGED shapeVars
 DefaultLocBinding == IF Mutant = "defaults_from_primary" THEN 1 ELSE sel
 AddRequiredDefaults ==
   /\ phase = "placed"
   /\ dflt' = IF Mutant = "no_defaults" THEN {}
              ELSE {r \in required : Loc(DefaultLocBinding, r) = "query" /\ r \notin DOMAIN queryL}
   /\ phase' = "defaulted"
-  /\ UNCHANGED <<draft, di, req, sel, path, hasBody, bodyL, queryL, msg, http, reply, result, outcome, calls, log>> /\ UNCHANGED shapeVars
+  /\ UNCHANGED <<di, req, sel, path, hasBody, bodyL, queryL, msg, http, reply, result, outcome, calls, log>> /\ UNCHANGED shapeVars
 QKey(l) == IF Mutant = "snake_defaults" /\ l \in dflt THEN l ELSE LeafTab[l].json
 EncQ(l) == IF l \in dflt THEN <<Default(l)>>
            ELSE IF Mutant = "alt_without_int" THEN Wire0(l, queryL[l]) ELSE Enc(l, Wire0(l, queryL[l]))
@@ -285,21 +286,21 @@ EncodeEnums ==
                 query |-> IF numeric THEN q @@ (AltParam :> AltValue) ELSE q,
                 hasBody |-> hasBody, body |-> b]
   /\ phase' = "encoded"
-  /\ UNCHANGED <<draft, di, req, sel, path, hasBody, bodyL, queryL, dflt, http, reply, result, outcome, calls, log>> /\ UNCHANGED shapeVars
+  /\ UNCHANGED <<di, req, sel, path, hasBody, bodyL, queryL, dflt, http, reply, result, outcome, calls, log>> /\ UNCHANGED shapeVars
 SendHttp ==
   /\ phase = "encoded"
   /\ http' = Append(http, msg) /\ phase' = "sent"
-  /\ UNCHANGED <<draft, di, req, sel, path, hasBody, bodyL, queryL, dflt, msg, reply, result, outcome, calls, log>> /\ UNCHANGED shapeVars
+  /\ UNCHANGED <<di, req, sel, path, hasBody, bodyL, queryL, dflt, msg, reply, result, outcome, calls, log>> /\ UNCHANGED shapeVars
 ServerReply(rv) ==
   /\ phase = "sent"
   /\ reply' = rv /\ phase' = "replied"
-  /\ UNCHANGED <<draft, di, req, sel, path, hasBody, bodyL, queryL, dflt, msg, http, result, outcome, calls, log>> /\ UNCHANGED shapeVars
+  /\ UNCHANGED <<di, req, sel, path, hasBody, bodyL, queryL, dflt, msg, http, result, outcome, calls, log>> /\ UNCHANGED shapeVars
 ParseReply ==
   /\ phase = "replied"
   /\ result' = [name |-> reply.name, big_n |-> reply.big_n,
                 kind |-> IF Mutant = "reply_enum_dropped" THEN <<>> ELSE reply.kind]
   /\ outcome' = "ok" /\ phase' = "parsed"
-  /\ UNCHANGED <<draft, di, req, sel, path, hasBody, bodyL, queryL, dflt, msg, http, reply, calls, log>> /\ UNCHANGED shapeVars
+  /\ UNCHANGED <<di, req, sel, path, hasBody, bodyL, queryL, dflt, msg, http, reply, calls, log>> /\ UNCHANGED shapeVars
 Compact(f) == Restrict(f, {k \in DOMAIN f : f[k] # <<>>})
 Finish ==
   /\ log' = Append(log, [req |-> Compact(req), outcome |-> outcome, sel |-> sel, sent |-> Len(http),
@@ -307,7 +308,7 @@ Finish ==
                          reply |-> reply, result |-> result])
   /\ calls' = calls + 1
   /\ phase' = IF calls + 1 < Calls THEN "idle" ELSE "done"
-  /\ draft' = Unset /\ di' = 1 /\ req' = Unset /\ sel' = 0 /\ path' = <<>> /\ hasBody' = FALSE /\ bodyL' = EmptyMap
+  /\ di' = 1 /\ req' = Unset /\ sel' = 0 /\ path' = <<>> /\ hasBody' = FALSE /\ bodyL' = EmptyMap
   /\ queryL' = EmptyMap /\ dflt' = {} /\ msg' = NoMsg /\ http' = <<>> /\ reply' = NoReply /\ result' = NoResult
   /\ outcome' = ""
   /\ UNCHANGED shapeVars
@@ -319,7 +320,7 @@ Transport == RefuseNoBinding \/ SelectBinding \/ RejectNoMatch \/ ExpandPath \/ 
 Next == \/ \E v \in DOMAIN VerbNext, p \in PathIds, b \in Bodies : AddBinding(v, p, b)
         \/ \E R \in ReqSetIds, n \in Numerics, t \in RespTypes : Seal(ReqSetTab[R], n, t)
         \/ BuildLeaf
-        \/ (di > Len(LeafOrder) /\ Invoke(draft))
+        \/ (di > Len(LeafOrder) /\ Invoke(req))
         \/ Transport \/ SendHttp
         \/ (\E r \in ReplyIds : ServerReply(ReplyTab[r]))
         \/ ParseReply \/ Return \/ Raise
@@ -327,7 +328,8 @@ Spec == Init /\ [][Next]_vars
 
 -----------------------------------------------------------------------------
 (* The property, clause by clause (C04).  h = what went over the wire.     *)
-Sent == Len(http) > 0
+Sent == Len(http) > 0 /\ phase = "sent"     \* what was sent never changes afterwards: judged once, when it is sent
+WasSent == Len(http) > 0
 h == http[1]
 B == bindings[sel]
 T == BToks(sel)
@@ -355,11 +357,11 @@ Inv_Instantiates ==
                     /\ Captured(T, h.path, i) = WithSuf(req[T[i].var], T[i].suf)
 \* first eligible binding wins, primary first
 Inv_FirstWins == sel > 0 => Eligible(sel) /\ \A j \in 1..(sel - 1) : ~Eligible(j)
-Inv_Rejected == outcome = "error" => Len(bindings) > 0 /\ ~Sent /\ \A i \in 1..Len(bindings) : ~Eligible(i)
+Inv_Rejected == outcome = "error" => Len(bindings) > 0 /\ ~WasSent /\ \A i \in 1..Len(bindings) : ~Eligible(i)
 \* "methods without a binding refuse the REST transport with NotImplementedError"
-Inv_Refused == /\ (outcome = "NotImplementedError" => Len(bindings) = 0 /\ ~Sent)
-               /\ (Len(bindings) = 0 => ~Sent /\ outcome \in {"", "NotImplementedError"})
-Inv_OneRequest == Len(http) <= 1 /\ (outcome = "ok" => Sent)
+Inv_Refused == /\ (outcome = "NotImplementedError" => Len(bindings) = 0 /\ ~WasSent)
+               /\ (Len(bindings) = 0 => ~WasSent /\ outcome \in {"", "NotImplementedError"})
+Inv_OneRequest == Len(http) <= 1 /\ (outcome = "ok" => WasSent)
 
 \* where a leaf travels
 InPath(l) == l \in PathVars(T)
